@@ -65,6 +65,18 @@ TABLE = [
      "the statement with bit-identical timestamps (or the allowed integer rounding) and the re-saved text must be identical.",
      _NOTE + " One known finding (keyword inside a name/label derails the text readers) is excluded by a case-level signature and reported as KNOWN-FINDING.",
      "DESIGN.md section 3 C01"),
+    ("C02", "Hypothesis generated textgrids (keyword-heavy names/labels, overrides) decoded by an independent spec-based reader; cross-format differential",
+     "Every generated textgrid is written in 4 formats x 2 blank-filling settings (with optional span overrides) and decoded by "
+     "a token reader / strict JSON schema reader written from the specification, which must recover the in-memory content "
+     "exactly; blank-filled tiers must partition the file span; the four formats must agree.",
+     _NOTE + " The independent reader (vlib/tgspec.py) is part of the trusted base and is self-tested at the start of every run.",
+     "DESIGN.md section 3 C02"),
+    ("C03", "Hypothesis generated data rendered by independent spec-based writers (5 layouts x number styles x encodings x newlines), differential against openTextgrid",
+     "Files are produced by writers in /verif (Praat long, ELAN long, short, two JSON schemas; repr/17-digit/exponent numbers, -0; "
+     "UTF-8, UTF-8-sig, UTF-16 LE/BE with BOM; LF/CRLF) and opened with every includeEmptyIntervals/duplicateNamesMode setting; "
+     "the result must equal the generating data bit-for-bit.",
+     _NOTE + " One known finding (keyword inside a name/label) is excluded by a case-level signature and reported as KNOWN-FINDING.",
+     "DESIGN.md section 3 C03"),
 ]
 
 PENDING = {}
